@@ -1,3 +1,3 @@
 INIT Init
 NEXT Next
-INVARIANTS C04_LayerNoMix C04_ObsWhole C04_ObsNoLeftovers K04_ObsCurrent C04_NoMix K04_ConcCompletes C04_ExactUp C04_ExactDown C04_Options C04_Once C04_Ends C04_NoLeftovers K04_Conforms K04_Completes
+INVARIANTS C04_LayerNoMix C04_ObsCompletedLeavesNothing C04_ObsWhole C04_ObsNoLeftovers K04_ObsCurrent C04_NoMix K04_ConcCompletes C04_ExactUp C04_ExactDown C04_Options C04_Once C04_Ends C04_NoLeftovers K04_Conforms K04_Completes
